@@ -297,6 +297,36 @@ func (h *VH) Handle(cx *layer4.Connection, next layer4.Handler) error {
 			return err
 		}
 		return next.Handle(cx)
+	case "addrrec":
+		// what a handler behind proxy_protocol sees: connection addresses and placeholders
+		ev := Ev{"e": "Addr", "remote": cx.RemoteAddr(), "local": cx.LocalAddr()}
+		if repl, ok := cx.Context.Value(layer4.ReplacerCtxKey).(*caddy.Replacer); ok {
+			if v, ok := repl.Get("l4.conn.remote_addr"); ok {
+				ev["phRemote"] = v
+			}
+			if v, ok := repl.Get("l4.conn.local_addr"); ok {
+				ev["phLocal"] = v
+			}
+		}
+		rec.Add(ev)
+		return next.Handle(cx)
+	case "flag":
+		rec.Add(Ev{"e": "Flag", "l": h.L})
+		return next.Handle(cx)
+	case "termraw":
+		// terminal: keeps the raw bytes it read
+		buf := make([]byte, 32*1024)
+		rec.InHandler = true
+		for {
+			k, err := cx.Read(buf)
+			rec.Raw = append(rec.Raw, buf[:k]...)
+			if err != nil || k == 0 {
+				break
+			}
+		}
+		rec.InHandler = false
+		rec.Add(Ev{"e": "Term", "l": h.L, "r": h.R})
+		return nil
 	case "echomark":
 		rec.EchoL, rec.EchoR = h.L, h.R
 		return next.Handle(cx)
